@@ -298,6 +298,22 @@ pub fn aux_values(sam_only_valid: bool, wide: bool) -> Vec<Option<GVal>> {
     std::iter::once(None).chain(v.into_iter().map(Some)).collect()
 }
 
+
+/// Aux values whose element / byte counts sit at and above 2^16 (no count field of an aux value is 16
+/// bits wide, so nothing may happen there): kept with the other expensive entries.
+pub fn big_aux_values(wide: bool) -> Vec<Option<GVal>> {
+    let mut v = vec![GVal::BU8((0..65536u32).map(|i| (i % 251) as u8).collect()), GVal::Z((0..65536u32).map(|i| b'!' + (i % 94) as u8).collect())];
+    if wide {
+        v.extend([
+            GVal::BU8((0..65535u32).map(|i| (i % 251) as u8).collect()),
+            GVal::BU16((0..65537u32).map(|i| (i % 65521) as u16).collect()),
+            GVal::BI32((0..65536).map(|i| i * 31 - 1_000_000).collect()),
+            GVal::H((0..65536u32).map(|i| b"0123456789ABCDEF"[(i % 16) as usize]).collect()),
+        ]);
+    }
+    v.into_iter().map(Some).collect()
+}
+
 impl Alphabet {
     /// C05: the BAM record grammar. `heavy` adds the expensive entries (≥ 65535 ops, 65536 bases).
     pub fn bam(wide: bool, heavy: bool) -> Self {
@@ -370,6 +386,7 @@ impl Alphabet {
         if heavy {
             a.cigars.extend([CigarSel::Ops(65535), CigarSel::Ops(65536), CigarSel::Ops(70000)]);
             a.seqlens.push(SeqLen::Fixed(65536));
+            a.auxvals.extend(big_aux_values(wide));
             if wide {
                 a.cigars.extend([CigarSel::OpsIns(65536), CigarSel::OpsStarSeq(65536)]);
             }
@@ -387,6 +404,7 @@ impl Alphabet {
         a.poss.retain(|p| *p != Some((1 << 32) + 1));
         if heavy {
             a.cigars.extend([CigarSel::Ops(65536), CigarSel::OpsStarSeq(65536)]);
+            a.auxvals.extend(big_aux_values(wide));
             if wide {
                 a.cigars.extend([CigarSel::Ops(65535), CigarSel::OpsIns(65536)]);
             }
